@@ -2238,6 +2238,12 @@ func repoTagHandler(c web.C, w http.ResponseWriter, r *http.Request) {
 		}
 	}
 
+	// the tag becomes the UUID of the new version: it cannot be empty
+	if len(jsonData.Tag) == 0 {
+		BadRequest(w, r, "POST tag requires a non-empty 'tag' in the JSON body")
+		return
+	}
+
 	// create new branch
 	branch := "tag-" + jsonData.Tag
 	note := fmt.Sprintf("Tag of version %s with %q", uuid, jsonData.Tag)
